@@ -14,7 +14,15 @@ deriving instance DecidableEq for Cfg
 def good : Cfg :=
   { sepTest := 0, sepNul := 0, sepSpace := 32, rule2Sep := 0, rule2In := 32, rule2Split := 32,
     envNul := 0, envEq := 61, rlNul := 0, deletedSuffix := Spec.deleted, deletedCut := 10,
-    nameMinLen := 15, nameTestOnBytes := true, textRaw := true }
+    nameMinLen := 15, nameTestOnBytes := true, textRaw := true,
+    -- name(): a zombie's / unreadable cmdline keeps the kernel's name; exe(): only AccessDenied leads to the
+    -- guess, only AccessDenied of the guess is swallowed, only an AccessDenied fallback is re-raised
+    nameSwallows := [.zombieProcess, .accessDenied], exeGuessOn := [.accessDenied],
+    exeGuessSwallows := [.accessDenied], guessReraises := [.accessDenied] }
+
+@[simp] theorem good_nameSwallows : good.nameSwallows = [.zombieProcess, .accessDenied] := rfl
+@[simp] theorem good_exeGuessOn : good.exeGuessOn = [.accessDenied] := rfl
+@[simp] theorem good_exeGuessSwallows : good.exeGuessSwallows = [.accessDenied] := rfl
 
 /-! ### fields / splitOn -/
 
